@@ -21,6 +21,7 @@ import (
 	"verifharness/hx"
 	"verifharness/lsm"
 	"verifharness/opx"
+	"verifharness/refimpl"
 )
 
 // ---------------------------------------------------------------- registry + store on a real small DKV
@@ -33,6 +34,8 @@ type rop struct {
 }
 type rprog struct {
 	Groups  int
+	NOps    int // operators of the job: the store under test is the one of operator Idx
+	Idx     int
 	Cache   uint64
 	Senders int
 	MemTab  int
@@ -43,6 +46,8 @@ type rprog struct {
 func genReg(rt *rapid.T) rprog {
 	p := rprog{
 		Groups:  rapid.SampledFrom([]int{1, 2, 3, 8}).Draw(rt, "groups"),
+		NOps:    rapid.SampledFrom([]int{1, 1, 2, 3}).Draw(rt, "nops"),
+		Idx:     rapid.IntRange(0, 2).Draw(rt, "idx"),
 		Cache:   rapid.SampledFrom([]uint64{1, 12, 13, 26, 30, 60, 200, 1 << 30}).Draw(rt, "cache"),
 		Senders: rapid.IntRange(1, 3).Draw(rt, "senders"),
 		MemTab:  rapid.SampledFrom([]int{96, 256, 1 << 20}).Draw(rt, "memtable"),
@@ -70,11 +75,26 @@ func execReg(p rprog, c *hx.Case) error {
 	fs := lsm.NewGateFS()
 	opts := dkv.DBOptions{FileSystem: fs, MemTableSize: uint64(p.MemTab), TargetFileSize: 256, L0TableNumCompactionTrigger: 2}
 	db := dkv.Open(opts, nil)
-	ks := partitioning.NewKeySpace(p.Groups, 1)
-	kgr := ks.KeyGroupRanges()[0]
+	// the store of one operator of the job: its range need not start at group 0
+	nops := max(1, min(p.NOps, p.Groups))
+	ks := partitioning.NewKeySpace(p.Groups, nops)
+	kgr := ks.KeyGroupRanges()[p.Idx%nops]
 	senders := []string{"s0", "s1", "s2"}[:p.Senders]
 	reg := operator.NewTimerRegistry(operator.NewTimerStore(db, ks, kgr, p.Cache), senders)
-	keys := hx.AdversarialKeys[1 : 1+p.NKeys]
+	// an operator only ever sees keys of its own range
+	var keys [][]byte
+	cand := append([][]byte(nil), hx.AdversarialKeys[1:]...)
+	for i := 0; i < 64; i++ {
+		cand = append(cand, []byte(fmt.Sprintf("k%d", i)))
+	}
+	for _, k := range cand {
+		if g := refimpl.KeyGroup(k, p.Groups); g >= kgr.Start && g < kgr.End && len(keys) < p.NKeys {
+			keys = append(keys, k)
+		}
+	}
+	if len(keys) == 0 {
+		return &hx.Inconclusive{Why: "no candidate key in the operator's range"}
+	}
 	pending := map[tk]bool{}
 	ups := map[string]int64{}
 	for _, s := range senders {
@@ -198,6 +218,7 @@ func execReg(p rprog, c *hx.Case) error {
 	// rough per-timer cache footprint is 11 bytes + key
 	c.LabelIf(uint64(maxPending*12) > p.Cache, "timers>cache")
 	c.LabelIf(resets > 0, "restore")
+	c.LabelIf(kgr.Start > 0, "range-not-starting-at-group-0")
 	c.LabelIf(repeats > 0, "3x-same-timer")
 	if uint64(maxPending*12) > p.Cache && fired > 0 && (resets == 0 || firedAfterRestore > 0) {
 		c.NonTrivial()
@@ -208,7 +229,7 @@ func execReg(p rprog, c *hx.Case) error {
 }
 
 func TestPropRegistry(t *testing.T) {
-	hx.Run(t, hx.Spec{Prop: "C10", Rule: "TimerRegistry+TimerStore on a real small DKV (exported constructors): 2..50 SetTimer (repeats of identical timers, ties) / AdvanceWatermark over 1..3 upstreams / checkpoint+restore into a fresh store, key-group counts 1..8, cache sizes from 1 byte (smaller than one timer) to everything-fits; each advance must fire exactly the pending timers <= the minimum watermark, once, in non-decreasing order; after the history every upstream is advanced beyond all timers and nothing may remain; non-trivial = more timers pending than the cache can hold and >=1 fired (after the restore if there was one)"}, genReg, execReg)
+	hx.Run(t, hx.Spec{Prop: "C10", Rule: "TimerRegistry+TimerStore on a real small DKV (exported constructors): 2..50 SetTimer (repeats of identical timers, ties) / AdvanceWatermark over 1..3 upstreams / checkpoint+restore into a fresh store, key-group counts 1..8 of which the store owns the range of one of 1..3 operators (keys drawn from that range), cache sizes from 1 byte (smaller than one timer) to everything-fits; each advance must fire exactly the pending timers <= the minimum watermark, once, in non-decreasing order; after the history every upstream is advanced beyond all timers and nothing may remain; non-trivial = more timers pending than the cache can hold and >=1 fired (after the restore if there was one)"}, genReg, execReg)
 }
 
 // ---------------------------------------------------------------- through the real Operator
